@@ -134,11 +134,16 @@ def zeroing_reasons(body: List[N]) -> Dict[str, List[str]]:
             if not pol:
                 continue
             for a in sf.conjuncts(c):
-                if a.kind == 'bin' and a.op == '=':
+                lits: List[str] = []
+                if a.kind == 'bin' and a.op in ('=', '<=>'):
                     for x, y in ((a.left, a.right), (a.right, a.left)):
                         if x.kind == 'col' and [p.lower() for p in x.parts] == ['new', 'reason'] and y.kind == 'lit' and isinstance(y.value, str):
-                            out.setdefault(y.value, [])
-                            out[y.value] += [n for n in nulled if n not in out[y.value]]
+                            lits.append(y.value)
+                elif a.kind == 'in' and not a.negated and isinstance(a.items, list) and a.arg.kind == 'col' and [p.lower() for p in a.arg.parts] == ['new', 'reason']:
+                    lits += [y.value for y in a.items if y.kind == 'lit' and isinstance(y.value, str)]
+                for lit in lits:
+                    out.setdefault(lit, [])
+                    out[lit] += [n for n in nulled if n not in out[lit]]
     return out
 
 
@@ -633,6 +638,14 @@ def trace_strings(m: pf.Module, fn: Optional[pf.FuncDef], e: ast.expr, frames: T
         params = [d for d in defs if isinstance(d, ast.arg)]
         others = [d for d in defs if not isinstance(d, ast.arg)]
         out: List[Tuple[Optional[str], Tuple[Frame, ...], str]] = []
+        if not defs:
+            # not a local: a module-level constant?
+            try:
+                g = m.global_assign(e.id)
+            except Exception:
+                g = None
+            gs = pf.const_str(g) if g is not None else None
+            return [(gs, frames, '' if gs is not None else f'{m.rel}:{e.lineno} {e.id} is not a local or a module-level string constant')]
         for d in others:
             if isinstance(d, ast.expr):
                 out += trace_strings(m, fn, d, frames, depth)
@@ -770,8 +783,9 @@ def refine_from_callers(ctx: Ctx, prog: sf.SqlProgram, ws: List[Writer]) -> None
                 rvals = {v for v, _, _ in srcs} if all(v is not None or note == 'None' for v, _, note in srcs) else None
             w.variants.append((f'{m.rel}::{m.qualname(wrapper)}', classes, False, rvals))
         if any(v[2] for v in w.variants):
-            ctx.assume('mark_job_errored is only called for an attempt id freshly generated by the scheduling loop (the attempt row has no timestamps yet); '
-                       'checked at the call sites that generate the id with secret_alnum_string')
+            ctx.assume('mark_job_errored reports an attempt that has not ended and has not been billed yet (OLD: end_time NULL, reason NULL, rollup <= start or one of them NULL): '
+                       'the id was just generated by the scheduling loop (secret_alnum_string) or, for a job-private instance, the attempt was created by mark_job_creating '
+                       '(start = rollup) and its job was never sent to a worker, so no billing heartbeat has moved rollup_time.  Not verified statically.')
 
 
 # ----------------------------------------------------------------------------------------------------
@@ -799,8 +813,8 @@ def transitions(body: List[N], w: Writer, special_reasons: Sequence[str]) -> Ite
             old = dict(zip(TIME_COLS, ordv[:3]))
             if not inv(old):
                 continue
-            if fresh and any(v is not None for v in old.values()):
-                continue
+            if fresh and not (old['end_time'] is None and (old['start_time'] is None or old['rollup_time'] is None or old['rollup_time'] <= old['start_time'])):
+                continue        # 'fresh': the attempt has not ended and nothing has been billed for it yet
             pv = dict(zip(tsyms, ordv[3:]))
             if any((classes.get(s) == 'nonnull' and pv[s] is None) or (classes.get(s) == 'null' and pv[s] is not None) for s in tsyms):
                 continue
@@ -812,3 +826,185 @@ def transitions(body: List[N], w: Writer, special_reasons: Sequence[str]) -> Ite
                     new = w.written_row(old, pv, nr)
                     out = exec_trigger(body, old, new)
                     yield label, dict(old), new, out
+
+
+# ----------------------------------------------------------------------------------------------------
+# abstract evaluation of a condition over one ordering class (no concrete values)
+# ----------------------------------------------------------------------------------------------------
+class UnknownLeaf(Exception):
+    """The condition reads something the ordering class does not determine."""
+
+
+class GapBasis:
+    """A linear form over rank atoms rewritten over the gaps between consecutive distinct ranks of the class:
+    value(rank_k) = g_0 + .. + g_k with every gap an integer >= 1 (g_0: distance of the lowest timestamp from 0).
+    The sign of a form is then a question about coefficient signs - decided symbolically, exactly."""
+
+    def __init__(self, ranks: Sequence[Optional[int]]):
+        self.rs = sorted({r for r in ranks if r is not None and r != ZERO})
+
+    def coeffs(self, lin: Lin) -> Tuple[Tuple[int, ...], int]:
+        cs_ = dict(lin[0])
+        for r in cs_:
+            if r not in self.rs:
+                raise AnalysisError('internal: rank outside the ordering class')
+        return tuple(sum(cs_.get(rk, 0) for rk in self.rs[i:]) for i in range(len(self.rs))), lin[1]
+
+
+Sign3 = Tuple[Optional[bool], Optional[bool], Optional[bool]]      # (can be < 0, can be = 0, can be > 0); None = not decided
+
+
+def sign_info(a: Sequence[int], c: int) -> Sign3:
+    """Which signs c + sum(a_i * g_i) takes when every g_i ranges over the integers >= 1 (exact where not None)."""
+    pos = [x for x in a if x > 0]
+    neg = [x for x in a if x < 0]
+    if not pos and not neg:
+        return (c < 0, c == 0, c > 0)
+    if pos and not neg:
+        mn = c + sum(pos)
+        return (mn < 0, True if mn == 0 else (False if mn > 0 else (True if 1 in pos else None)), True)
+    if neg and not pos:
+        mx = c + sum(neg)
+        return (True, True if mx == 0 else (False if mx < 0 else (True if -1 in neg else None)), mx > 0)
+    return (True, True if (1 in pos or -1 in neg) else None, True)
+
+
+class CondEval(ValueEval):
+    """Three-valued truth of a condition in one ordering class, decided symbolically.
+    Results:  ('const', True|False|None)            the same outcome for every realisation of the class
+              ('var', frozenset of outcomes)        exactly these outcomes occur (each for some realisation)
+              ('unk',)                              not decided
+    `pivot` / `pivot_sign`: an optional linear form (gap basis) whose sign is fixed by the caller's case split; comparisons of
+    +-pivot with 0 are then decided by that sign, other arithmetic comparisons whose sign is not constant are 'unk' (correlation)."""
+
+    def __init__(self, leaf: Callable[[N], Any], basis: GapBasis, pivot: Optional[Tuple[Tuple[int, ...], int]] = None, pivot_sign: int = 0):
+        super().__init__(leaf)
+        self.basis = basis
+        self.pivot = pivot
+        self.pivot_sign = pivot_sign
+
+    # GREATEST / LEAST are resolved as soon as the ordering class decides which argument wins
+    def forms(self, e: N) -> Any:
+        if e.kind == 'func' and e.name in ('GREATEST', 'LEAST') and e.args:
+            vals = [self.forms(a) for a in e.args]
+            if any(v is NULLV for v in vals):
+                return NULLV
+            if all(v.kind == 'one' for v in vals):
+                want_max = e.name == 'GREATEST'
+                for v in vals:
+                    ok = True
+                    for u in vals:
+                        if u is v:
+                            continue
+                        d = v.add(u.neg(), e) if want_max else u.add(v.neg(), e)
+                        s = sign_info(*self.basis.coeffs(d.forms[0]))
+                        if s[0] is not False:
+                            ok = False
+                            break
+                    if ok:
+                        return v
+        return super().forms(e)
+
+    def signs(self, f: Forms) -> Tuple[Optional[int], Sign3]:
+        """(sign fixed by the pivot case split or None, sign_info over the whole class)"""
+        if f.kind != 'one':
+            raise UnknownLeaf('unresolved GREATEST/LEAST')
+        a, c = self.basis.coeffs(f.forms[0])
+        if self.pivot is not None and c == 0 and self.pivot[1] == 0 and any(self.pivot[0]):
+            if a == self.pivot[0]:
+                return self.pivot_sign, (None, None, None)
+            if a == tuple(-x for x in self.pivot[0]):
+                return -self.pivot_sign, (None, None, None)
+        return None, sign_info(a, c)
+
+    def _operand(self, e: N) -> Any:
+        if e.kind == 'lit' and isinstance(e.value, str):
+            return e.value
+        if e.kind in ('col', 'param'):
+            v = self.leaf(e)
+            if isinstance(v, str):
+                return v
+        return self.forms(e)
+
+    def cond(self, c: N) -> bool:        # not used here (ValueEval API)
+        r = self.truth(c)
+        if r[0] != 'const':
+            raise AnalysisError(f'condition `{text(c)}` is not decided by the ordering')
+        return r[1] is True
+
+    def truth(self, c: N) -> Tuple:
+        try:
+            return self._truth(c)
+        except UnknownLeaf:
+            return ('unk',)
+        except AnalysisError:
+            return ('unk',)
+
+    @staticmethod
+    def _combine(op: str, parts: List[Tuple]) -> Tuple:
+        def k3(vals: List[Optional[bool]]) -> Optional[bool]:
+            if op == 'AND':
+                return False if any(v is False for v in vals) else (None if any(v is None for v in vals) else True)
+            return True if any(v is True for v in vals) else (None if any(v is None for v in vals) else False)
+        consts = [p[1] for p in parts if p[0] == 'const']
+        others = [p for p in parts if p[0] != 'const']
+        # absorbing constant decides regardless of the rest
+        if (op == 'AND' and any(v is False for v in consts)) or (op == 'OR' and any(v is True for v in consts)):
+            return ('const', op == 'OR')
+        if not others:
+            return ('const', k3(consts))
+        if len(others) == 1 and others[0][0] == 'var':
+            outs = frozenset(k3(consts + [o]) for o in others[0][1])
+            return ('const', next(iter(outs))) if len(outs) == 1 else ('var', outs)
+        return ('unk',)
+
+    def _truth(self, c: N) -> Tuple:
+        k = c.kind
+        if k == 'bin' and c.op in ('AND', 'OR'):
+            return self._combine(c.op, [self.truth(c.left), self.truth(c.right)])
+        if k == 'un' and c.op == 'NOT':
+            r = self.truth(c.arg)
+            if r[0] == 'const':
+                return ('const', None if r[1] is None else not r[1])
+            if r[0] == 'var':
+                return ('var', frozenset(None if o is None else not o for o in r[1]))
+            return r
+        if k == 'lit':
+            return ('const', None if c.value is None else bool(c.value))
+        if k == 'isnull':
+            return ('const', (self._operand(c.arg) is NULLV) != c.negated)
+        if k == 'bin' and c.op in ('=', '!=', '<', '<=', '>', '>=', '<=>'):
+            a, b = self._operand(c.left), self._operand(c.right)
+            if isinstance(a, str) or isinstance(b, str):
+                if c.op == '<=>':
+                    return ('const', (a is NULLV and b is NULLV) or (isinstance(a, str) and isinstance(b, str) and a.lower() == b.lower()))
+                if a is NULLV or b is NULLV:
+                    return ('const', None)
+                if c.op in ('=', '!=') and isinstance(a, str) and isinstance(b, str):
+                    return ('const', (a.lower() == b.lower()) == (c.op == '='))
+                return ('unk',)
+            if c.op == '<=>' and (a is NULLV or b is NULLV):
+                return ('const', a is NULLV and b is NULLV)
+            if a is NULLV or b is NULLV:
+                return ('const', None)
+            fixed, (cn, cz, cp) = self.signs(a.add(b.neg(), c))
+            test = {'=': lambda s: s == 0, '<=>': lambda s: s == 0, '!=': lambda s: s != 0, '<': lambda s: s < 0, '<=': lambda s: s <= 0,
+                    '>': lambda s: s > 0, '>=': lambda s: s >= 0}[c.op]
+            if fixed is not None:
+                return ('const', test(fixed))
+            if None in (cn, cz, cp):
+                # undecided possibilities only matter if they could change the outcome
+                sure = {test(s) for s, can in ((-1, cn), (0, cz), (1, cp)) if can is True}
+                maybe = {test(s) for s, can in ((-1, cn), (0, cz), (1, cp)) if can is None}
+                if len(sure) == 1 and maybe <= sure:
+                    return ('const', next(iter(sure)))
+                if len(sure) == 2 and self.pivot is None:
+                    return ('var', frozenset(sure))
+                return ('unk',)
+            outs = frozenset(test(s) for s, can in ((-1, cn), (0, cz), (1, cp)) if can)
+            if len(outs) == 1:
+                return ('const', next(iter(outs)))
+            if self.pivot is not None:
+                return ('unk',)      # varies inside the class, but the caller's case split may correlate with it
+            return ('var', outs)
+        raise UnknownLeaf(f'condition `{text(c)}`')
